@@ -138,8 +138,6 @@ def check_module(m, expect):
 def expand_and_audit(name, modules, expects, features, log=None):
     """modules: [(mod_name, text)]; expects: {type_name: {...}}. Returns (event_modules, error)"""
     d = os.path.join(WORK, name)
-    src = "#![allow(dead_code, unused_imports, non_snake_case, non_camel_case_types)]\n" + "\n".join("pub mod %s {\n%s\n}" % (mn, mt) for mn, mt in modules) + "\n"
-    write_if_changed(os.path.join(d, "src", "lib.rs"), src)
     feats = ", ".join('"%s"' % f for f in features)
     write_if_changed(os.path.join(d, "Cargo.toml"),
                      '[package]\nname = "auditee"\nversion = "0.1.0"\nedition = "2021"\n\n[dependencies]\nnutype = { path = "%s/nutype", features = [%s] }\n'
@@ -149,9 +147,35 @@ def expand_and_audit(name, modules, expects, features, log=None):
         shutil.copy(os.path.join(REPO, "Cargo.lock"), os.path.join(d, "Cargo.lock"))
     env = dict(ENV)
     env["CARGO_TARGET_DIR"] = os.path.join(WORK, "target-nightly")
-    rc, out, err, dt = run(["cargo", "+nightly", "rustc", "--offline", "--lib", "-q", "--", "-Zunpretty=expanded"], cwd=d, env=env, timeout=1500)
-    if rc != 0 or "mod __nutype_" not in out:
-        return None, "expansion failed rc=%d: %s" % (rc, err[-1500:])
+    modules = list(modules)
+    dropped = []
+    import re as _re
+    for _round in range(4):
+        head = "#![allow(dead_code, unused_imports, non_snake_case, non_camel_case_types)]\n"
+        src, spans, line = head, [], 2
+        for mn, mt in modules:
+            text = "pub mod %s {\n%s\n}\n" % (mn, mt)
+            n = text.count("\n")
+            spans.append((line, line + n - 1, mn))
+            src += text
+            line += n
+        write_if_changed(os.path.join(d, "src", "lib.rs"), src)
+        rc, out, err, dt = run(["cargo", "+nightly", "rustc", "--offline", "--lib", "-q", "--", "-Zunpretty=expanded"], cwd=d, env=env, timeout=1500)
+        if rc == 0 and "mod __nutype_" in out:
+            break
+        # a declaration the (possibly changed) macro refuses cannot be audited: drop the modules the errors point into and expand the rest
+        bad = set()
+        for m_ in _re.finditer(r"--> src/lib\.rs:(\d+):", err):
+            ln = int(m_.group(1))
+            for (a, b_, mn) in spans:
+                if a <= ln <= b_:
+                    bad.add(mn)
+        if not bad or _round == 3:
+            return None, "expansion failed rc=%d: %s" % (rc, err[-1500:])
+        dropped += sorted(bad)
+        if log:
+            log("expansion: %d module(s) do not expand and are left out of the audit: %s" % (len(bad), ", ".join(sorted(bad))[:200]))
+        modules = [(mn, mt) for (mn, mt) in modules if mn not in bad]
     exp_path = os.path.join(d, "expanded.rs")
     with open(exp_path, "w") as f:
         f.write(out)
